@@ -1,6 +1,6 @@
 (* C11 — selector matching follows the protocol and caching never changes an answer.
    Statements only; proofs in Proofs/MatchProofs.v. The URI-template library is a parameter. *)
-From Mercure Require Import Base Match MatchProofs.
+From Mercure Require Import Base Match MatchProofs UriTemplate UriTemplateProofs.
 
 (* The rule: "*", or equal character for character, or a valid template the topic matches. *)
 Theorem C11_spec : forall tmatch topic sel,
@@ -38,6 +38,50 @@ Theorem C11_concurrent_transparent : forall tmatch,
          (snd (crun tmatch (c, map start_thread qss) sched)).
 Proof. intros tmatch H sched c qss Hc. exact (concurrent_transparent tmatch H sched c qss Hc). Qed.
 Print Assumptions C11_concurrent_transparent.
+
+(* ---- layer B: the template library as the hub uses it (Model/UriTemplate.v) ---- *)
+
+(* The executable matcher is exactly the language of the regular expression the library generates
+   (literals, and per expression  (?:first( C1* (?:sep C2* ){0,max} ))?  ), anchored at both ends. *)
+Theorem C11_template_matcher_decides_language : forall ps s,
+  rx_match ps s = true <-> PartsL ps s.
+Proof. exact rx_match_spec. Qed.
+Print Assumptions C11_template_matcher_decides_language.
+
+(* "...a valid URI template of which the topic is an expansion" (if): every RFC 6570 expansion - any
+   operator, prefix and explode modifiers, any number of variables, defined or not, string values of
+   any characters - of a selector the hub treats as a template is answered true, whatever the cache did before. *)
+Theorem C11_expansions_match : forall sel ps env f,
+  ut_parse sel = Some ps -> ut_tmatch sel = Some f ->
+  f (ut_expand ps env) = true /\ match_spec ut_tmatch (ut_expand ps env) sel = true.
+Proof.
+  intros sel ps env f Hp Hf. split; [exact (expansion_matches_hub sel ps env f Hp Hf)|].
+  apply spec_iff. right. right. exists f. split; [exact Hf | exact (expansion_matches_hub sel ps env f Hp Hf)].
+Qed.
+Print Assumptions C11_expansions_match.
+
+(* (only if) is false of the code: the generated expression ignores variable names and prefix lengths.
+   Recorded as known findings c11-regexp-ignores-variable-name / c11-regexp-ignores-prefix-length. *)
+Theorem C11_only_expansions_match_refuted_name :
+  exists ps f, ut_parse w_sel1 = Some ps /\ ut_tmatch w_sel1 = Some f /\ f w_topic1 = true /\
+               forall env, ut_expand ps env <> w_topic1.
+Proof. exact match_without_expansion_name. Qed.
+Print Assumptions C11_only_expansions_match_refuted_name.
+
+Theorem C11_only_expansions_match_refuted_prefix :
+  exists ps f, ut_parse w_sel2 = Some ps /\ ut_tmatch w_sel2 = Some f /\ f w_topic2 = true /\
+               forall env, (forall n v, env n = Some v -> Forall (fun c => c <> []) v) -> ut_expand ps env <> w_topic2.
+Proof. exact match_without_expansion_prefix. Qed.
+Print Assumptions C11_only_expansions_match_refuted_prefix.
+
+(* non-vacuity: "/a{?x:3,y*}b" parses, compiles, and its expansion for x = y = "a bc" is "/a?x=a%20b&y=a%20bcb" *)
+Example C11_template_nonvacuous :
+  let sel := [47;97;123;63;120;58;51;44;121;42;125;98] in
+  exists ps f, ut_parse sel = Some ps /\ ut_tmatch sel = Some f /\
+    ut_expand ps (fun _ => Some [[97];[32];[98];[99]]) =
+      [47;97;63;120;61;97;37;50;48;98;38;121;61;97;37;50;48;98;99;98] /\
+    f [47;97;63;120;61;97;37;50;48;98;38;121;61;97;37;50;48;98;99;98] = true /\ f [47;97;47;98] = false.
+Proof. eexists. eexists. vm_compute. repeat split; reflexivity. Qed.
 
 (* non-vacuity: two pairs sharing the cache key "m_{x}_y_z" are answered independently *)
 Example C11_nonvacuous :
